@@ -20,6 +20,7 @@ package resolver
 
 import (
 	"crypto"
+	"crypto/ed25519"
 	"errors"
 	"fmt"
 	"github.com/nuts-foundation/go-did/did"
@@ -82,11 +83,11 @@ func (r DIDKeyResolver) ResolveKeyByID(keyID string, metadata *ResolveMetadata, 
 	for _, rel := range relationships {
 		localKeyId := rel.ID.String()
 		if localKeyId == keyID {
-			return rel.PublicKey()
+			return publicKeyOf(rel)
 		} else if baseUrl != nil && strings.HasPrefix(localKeyId, "#") {
 			localKeyId = *baseUrl + localKeyId
 			if localKeyId == keyID {
-				return rel.PublicKey()
+				return publicKeyOf(rel)
 			}
 		}
 	}
@@ -135,11 +136,25 @@ func (r DIDKeyResolver) ResolveKey(id did.DID, validAt *time.Time, relationType 
 	if len(keys) == 0 {
 		return "", nil, ErrKeyNotFound
 	}
-	publicKey, err := keys[0].PublicKey()
+	publicKey, err := publicKeyOf(keys[0])
 	if err != nil {
 		return "", nil, err
 	}
 	return keys[0].ID.String(), publicKey, nil
+}
+
+// publicKeyOf returns the public key of the verification method. It refuses key material that the crypto functions can't handle:
+// crypto/ed25519 panics when it is given a public key that is not exactly 32 bytes long,
+// which is checked by neither go-did nor jwx when they decode a publicKeyJwk, publicKeyBase58 or publicKeyMultibase.
+func publicKeyOf(relationship did.VerificationRelationship) (crypto.PublicKey, error) {
+	publicKey, err := relationship.PublicKey()
+	if err != nil {
+		return nil, err
+	}
+	if edKey, ok := publicKey.(ed25519.PublicKey); ok && len(edKey) != ed25519.PublicKeySize {
+		return nil, fmt.Errorf("invalid Ed25519 public key: length is %d bytes, expected %d", len(edKey), ed25519.PublicKeySize)
+	}
+	return publicKey, nil
 }
 
 func resolveRelationships(doc *did.Document, relationType RelationType) (relationships did.VerificationRelationships, err error) {
